@@ -250,6 +250,7 @@ def main():
         for p in probs:
             f = failing.setdefault(p, dict(name=p, n_violations=0, violations=[]))
             f["n_violations"] += 1
+            f.setdefault("inputs", []).append(__import__("_fp").fingerprint(d))
             if len(f["violations"]) < 2:
                 f["violations"].append(dict(scenario={k: sc[k] for k in ("classes", "methods", "call")}, **d))
                 f["replay_cmd"] = ["c02_oracle.py", "scenario", json.dumps({k: sc[k] for k in ("classes", "methods", "call")})]
